@@ -336,3 +336,7 @@ def run(chk):  # noqa: F811
     r2_staged_greeting(chk)
     r3_ready_roles(chk)
     r4_peer_error_fatal(chk)
+    from rules.common import rule_gate_closes_after_stage
+    r5 = chk.rule("R5", "a handshake stage closes its re-entry gate only when the stage is finished", "T3 region + T4",
+                  "in the engine's byte-driven handlers no assignment of a stage's gate field is followed, inside the gated stage, by a need-more-bytes early return (a fragmented greeting would stall the handshake for ever)")
+    rule_gate_closes_after_stage(chk, r5, r"protocol::zmtp::engine::ZmtpEngine::process_\w+$", r"network_read_accumulator", 3)
